@@ -266,9 +266,23 @@ def ctl_small():
                                Q('E', 'F', fm.Q), Q('A', 'G', fm.P)]
 
 
+def shared_fragment():
+    """Formulas of CTL, LTL and CTL* at once: A over one temporal operator with propositional
+    operands.  All three checkers (different algorithms: fixpoints, tableau) must agree."""
+    props = [fm.P, fm.Q, N(fm.P), ('and', fm.P, fm.Q), ('or', fm.P, N(fm.Q)), fm.TRUE]
+    out = []
+    for o in ('X', 'F', 'G'):
+        out += [('A', (o, a)) for a in props]
+    for o in ('U', 'R'):
+        out += [('A', (o, a, b)) for a in props[:4] for b in props[:5] if a != b]
+    return out
+
+
 def jobs(payload):
     """Deterministic list of (kind, dict) law instances, independent of the structure."""
     out = []
+    if payload.get('shared_only'):
+        return [('cross', {'f': f}) for f in shared_fragment()]
     c1 = fm.ctl_formulas(1)
     small = ctl_small()
     fs = c1[::payload['f_stride']]
@@ -301,12 +315,17 @@ def enum_shard(st, shard, nshards, payload):
     work = jobs(payload)
     idx = -1
     for n in payload['ns']:
-        for K in km.scope(n):
-            idx += 1
-            if idx % nshards != shard:
+        structs = km.scope(n) if n < 4 else km.scope_strided(n, payload['k_stride'])
+        for j, K in enumerate(structs):
+            # every k_stride-th structure of this scope (S(4)+ are strided by the decoder, S(1) is
+            # always complete), dealt round-robin to the shards
+            if 2 <= n < 4 and payload['k_stride'] > 1:
+                if j % payload['k_stride']:
+                    continue
+                j //= payload['k_stride']
+            if j % nshards != shard:
                 continue
-            if payload['k_stride'] > 1 and n >= 2 and (idx // nshards) % payload['k_stride']:
-                continue
+            idx += 1 + shard
             naming = NAMINGS[idx % len(NAMINGS)]
             env = Env(K, naming, idx % 6)
             for kind, d in work:
@@ -433,6 +452,14 @@ def run(ctx):
             ctx.scopes.append('every 1373rd of S(3) x strided law tables')
             f = core.run_sharded(ctx, enum_shard, {'ns': [3], 'k_stride': 1373, 'f_stride': 11, 'g_stride': 6,
                                                    'ltl_leaves': 2, 'star_k': 1, 'cross_k': 1, 'cross_stride': 5})
+    if f is None:
+        # the shared fragment on larger structures: CTL (fixpoints) against LTL (tableau) against CTL*
+        for (n_, stride_) in ctx.pick([(3, 401), (4, 400009), (5, 1000000007)], [(3, 3), (4, 4001), (5, 4000037)]):
+            ctx.scopes.append('every %dth of S(%d) x %d shared-fragment formulas through all three checkers' % (
+                stride_, n_, len(shared_fragment())))
+            f = core.run_sharded(ctx, enum_shard, {'ns': [n_], 'k_stride': stride_, 'shared_only': True})
+            if f is not None:
+                break
     if f is not None:
         ctx.violation(f)
         return
